@@ -55,10 +55,10 @@ def run(chk, tier, seed):
         if tier == 'quick':
             parts += word_parts(3, extra=()) if repl == 1 else word_parts(2, prefix=b'x :: ')
         else:
-            parts += word_parts(4, extra=()) if repl == 1 else (word_parts(3) + word_parts(4, prefix=b'x :: '))
+            parts += word_parts(4, extra=()) if repl == 1 else (word_parts(3) + word_parts(3, prefix=b'x :: '))
         # contexts x phrases: the enclosing construct decides which tokens an inner item loop refuses to consume
         if repl == 0:
-            parts += strcheck.context_parts(2, strcheck.CONTEXTS[:5]) if tier == 'quick' else strcheck.context_parts(3)
+            parts += strcheck.context_parts(2, strcheck.CONTEXTS[:5]) if tier == 'quick' else (strcheck.context_parts(2) + strcheck.context_parts(3, strcheck.CONTEXTS[:3]))
         tot = explore(chk, mod, job, parts, nproc=16)
         report(chk, so, tot['violations'], entry=ENTRY, prop='C23', extra_native=[('int', repl, 'c_uint32')])
     if tier == 'quick':
@@ -67,9 +67,11 @@ def run(chk, tier, seed):
         btxt = 'source file: all ASCII strings of length <= 3 and all strings of length 4 over %r; REPL line: all ASCII of length <= 2 and length 3 over the same alphabet' % ALPHABET_PARSE.decode()
     chk.cov['exhaustive'] = True
     chk.cov['explanation'] = 'states = finished paths of harness_lexparse (real lexer + parser + tree builder + assertions) over symbolic text'
-    kq = (3, 2) if tier == 'quick' else (4, 4)
+    kq = (3, 2) if tier == 'quick' else (4, 3)
     btxt += '; token level: REPL line of %d words and source file `x :: ` + %d words from the dictionary %s, each followed by whitespace' % (kq[0], kq[1], [w.decode() for w in strcheck.WORDS])
-    btxt += '; source file: each context of %s followed by %d phrases from %s' % ([c.decode() for c in (strcheck.CONTEXTS[:5] if tier == 'quick' else strcheck.CONTEXTS)], 2 if tier == 'quick' else 3, [w.decode() for w in strcheck.PHRASES])
+    btxt += '; source file: each context of %s followed by %d phrases from %s' % ([c.decode() for c in (strcheck.CONTEXTS[:5] if tier == 'quick' else strcheck.CONTEXTS)], 2, [w.decode() for w in strcheck.PHRASES])
+    if tier != 'quick':
+        btxt += '; the first 3 contexts also with 3 phrases'
     chk.bounds.update({'inputs': btxt, 'step_bound_per_path': step_bound,
                        'outside_claim': ['"time roughly linear" (complexity)', 'nesting depth 200', 'inputs longer than the bound', 'token sequences the lexer cannot produce']})
     chk.assumptions.extend(['rustc 1.88 lowers the crates to this LLVM IR (opt-level 1, fat LTO); llsym transcribes LLVM semantics (validated against native runs each run)',
